@@ -84,7 +84,7 @@ ASSUME ~NestedComponentsOf(Seed(7, "E"))
 S7 == Seed(7, "E")
 In7 == InlinePlan(S7, 1, 4, << <<"r", 1>> >>)             \* s [0] Wr, Wr contains COMPONENTS OF
 ASSUME NestedComponentsOf(InlineOf(S7, 1, 4, In7))
-ASSUME ~ComponentsOfForeignScope(S7) /\ ComponentsOfForeignScope(SplitOf(S7, 1, {1, 2}))     \* Fl and Ba move away from Wr
+ASSUME ~ComponentsOfForeignScope(S7) /\ ComponentsOfForeignScope(SplitOf(S7, 1, {3}))     \* Wr moves away from Fl, which the components of Ba use
 ASSUME ~RecursionAcrossModules(Seed(4, "I")) /\ RecursionAcrossModules(SplitOf(Seed(4, "I"), 1, {3}))
 ASSUME LET e == NFEnv(Seed(1, "E"), {}) v == SeedVals([k |-> 1, td |-> "E"])[1] IN BoolDefaultViaReference(Seed(1, "E"), v)
 ASSUME LET v == SeedVals([k |-> 3, td |-> "E"])[1] IN ~BoolDefaultViaReference(Seed(3, "E"), v)
